@@ -38,11 +38,25 @@ func exportGenCases(c *core.Ctx, depth int, withBad bool) ([]GenCase, *tlc.Resul
 
 func genScenario(id string, g *GenCase, mustSucceed bool) *Scenario {
 	sc := &Scenario{ID: id, Files: moduleFixture(), PkgDir: "c", MustSucceed: mustSucceed, WellTyped: true, Note: g.String()}
+	called := map[string]bool{}
 	for k, v := range genCaseFiles(g, "c") {
 		sc.Files[k] = v
+		for _, n := range reDeriveName.FindAllString(v, -1) {
+			called[n] = true
+		}
+	}
+	if g.Flagged {
+		var ov []string
+		for n := range called {
+			ov = append(ov, strings.ToLower(strings.TrimPrefix(n, "derive"))+"="+n)
+		}
+		sort.Strings(ov)
+		sc.Flags = []string{"-prefix=gen", "-pluginprefix=" + strings.Join(ov, ",")}
 	}
 	return sc
 }
+
+var reDeriveName = regexp.MustCompile(`\bderive[A-Z][A-Za-z]*\b`)
 
 var rePos = regexp.MustCompile(`^[^ ]*\.go:\d+:\d+: `)
 var reTmp = regexp.MustCompile(`/tmp/[^ :]*`)
@@ -128,6 +142,16 @@ func (m *genMinimiser) class(g *GenCase, chk *Checker) (string, error) {
 
 func (m *genMinimiser) minimise(g *GenCase, cls string, chk *Checker) (*GenCase, error) {
 	cur := *g
+	if cur.Flagged {
+		// the flags are part of the witness only if the failure needs them
+		plain := cur
+		plain.Flagged = false
+		if got, err := m.class(&plain, chk); err != nil {
+			return nil, err
+		} else if got == cls {
+			cur = plain
+		}
+	}
 	for round := 0; round < 4; round++ {
 		before := cur.String()
 		if err := m.shrinkType(&cur, cls, chk); err != nil {
@@ -326,6 +350,31 @@ func checkC01(c *core.Ctx) error {
 	if err != nil {
 		return err
 	}
+	// (a') the fixed core again under a non-default global prefix with the called plugins kept on their classic names
+	var flagged []GenCase
+	for _, g := range cases {
+		if g.T.Size() <= 1 && (g.F == "body" || g.F == "nested") {
+			g.Flagged = true
+			flagged = append(flagged, g)
+		}
+	}
+	stF, outsF, err := judgeGenCases(c, bin, flagged, true, func(why string) bool { return !strings.Contains(why, "(C09)") }, "c01f")
+	if err != nil {
+		return err
+	}
+	okF := 0
+	for _, o := range outsF {
+		if o.Exit == 0 && o.Post.Typechecks {
+			okF++
+		}
+	}
+	if okF*2 < len(outsF) {
+		return fmt.Errorf("only %d of %d flagged in-grammar cases generate and type-check: the flagged scenario is probably broken (e.g. %s: %s)", okF, len(outsF), flagged[0].String(), failureClass(outsF[0]))
+	}
+	c.Set("flagged_cases", len(outsF))
+	c.Set("flagged_cases_ok", okF)
+	st.Traces += stF.Traces
+	st.Events += stF.Events
 	// (b) packages with two or three calls of one plugin whose argument types are RELATED by assignability
 	// (type I1 []int, type I2 []int, []int, struct{F []int}): all supported, all names and types distinct,
 	// so generation must succeed (universe: the scenarios of Determinism.tla)
